@@ -32,3 +32,5 @@
 ; the value MatchesCondition returns for (traveler, condition reference) -- a name for
 ; the result of a pure deterministic function (see 'function' clause in its contract)
 (declare-fun condSem (Any Int) Bool)
+; the JSONPath a field reference denotes (jsonpath.GetJSONPath), abstract
+(declare-fun jpath (Str) Str)
